@@ -228,5 +228,9 @@ func genC18(r *rand.Rand, n int, emit func(string)) {
 		var body M
 		_ = json.Unmarshal(b, &body)
 		emit(proto.Line("transform", body))
+		if i%4 == 0 {
+			// the same state through the generic document transformer
+			emit(proto.Line("gtransform", body))
+		}
 	}
 }
